@@ -40,6 +40,9 @@ fn field_attr(recvs: &[Recv], scope: &str, f: &Field, k: usize) -> String {
     }
     if f.skip {
         opts.push(if k % 3 == 0 { "skip = true".into() } else { "skip".into() });
+    } else if (k + hn.len()) % 5 == 2 && !f.flatten {
+        // (the option carries a value: written with `false` it says what leaving it out says)
+        opts.push("skip = false".into());
     }
     if f.multiple {
         opts.push("multiple".into());
